@@ -20,8 +20,11 @@ def main():
 
 def _generic_replay(path):
     import json
-    from vf.sim import driver, explore
     v = json.load(open(path))
+    print("replaying", path, "signature on file:", v.get("signature"))
+    if "prog" not in v:
+        return _replay_other(v)
+    from vf.sim import driver, explore
     prefix = tuple(tuple(x) for x in v["prefix"])
     opts = v.get("opts", {})
     rec = driver.run_program(v["prog"], prefix, kinds=tuple(opts.get("kinds", "PTK")),
@@ -29,6 +32,48 @@ def _generic_replay(path):
                              kill_when=opts.get("kill_when"), starve=opts.get("starve"))
     print(explore.render(rec))
     print("signature on file:", v.get("signature"))
+    return 0
+
+
+def _replay_other(v):
+    """Re-executes a stored non-simulator case without the enumerator."""
+    import json
+    if "history" in v:                                     # C11 / C12 tracker histories
+        from vf.checks import c11
+        ev = dict((lab, raw) for lab, raw in c11.alphabet() + [c11.TRUNC])
+        hist = [(lab, ev[lab]) for lab in v["history"]]
+        found = []
+        c11.check_history(c11.Harness(), hist, lambda sig, msg, labels: found.append((sig, msg)))
+        for sig, msg in found:
+            print("VIOLATION-AGAIN", sig, msg[:400])
+        print("history", v["history"], "->", len(found), "violations")
+        return 1 if found else 0
+    if "harness" in v and "choices" in v:                  # C14
+        from vf.checks import c14
+        from vf import c14engine as E
+        from vf.q import common
+        build = dict(c14.harnesses("thorough"))[v["harness"]]
+        E.S = E.Sched(list(v["choices"]), set(), [], (c14.HERE,))
+        syn = E.load_sync(common.REPO)
+        fns, oracle = build(E.S, syn)
+        verdict = E.S.run(fns)
+        msgs = [("exception:" + e[1], e[2]) for e in E.S.errors] + oracle(E.S, verdict)
+        print("verdict", verdict, "blocked", E.S.blocked, "out", dict(E.S.out))
+        for m in msgs:
+            print("VIOLATION-AGAIN", m)
+        return 1 if msgs else 0
+    if "config" in v and str(v.get("signature", "")).startswith("C17"):
+        import ast
+        from vf.checks import c17
+        from vf.q import common
+        ctx = common.load("loky.backend.context")
+        saved = {k: getattr(ctx, k) for k in ("os", "subprocess", "warnings", "traceback", "sys")}
+        cfg = ast.literal_eval(v["config"])
+        got = c17.run(ctx, cfg, saved)
+        print("config", cfg, "got", got, "expected", c17.reference(cfg))
+        return 1 if got[0] != c17.reference(cfg)[0] else 0
+    print(json.dumps({k: v[k] for k in v if k != "trace"}, indent=1, default=str)[:4000])
+    print("(this case is re-run by its check: python -m vf.run", v.get("property"), ")")
     return 0
 
 
